@@ -165,11 +165,17 @@ impl<'ast, 'decls> ResolveIterator<'ast, 'decls>
                                 span,
                                 &util::BigInt::from(cur_bank_data.cur_position))?;
     
-                        cur_bank_data.cur_position += bits_until_alignment(
+                        let padding = bits_until_alignment(
                             report,
                             span,
                             cur_address_in_bits,
                             label_align)?;
+
+                        advance_position(
+                            report,
+                            span,
+                            &mut cur_bank_data.cur_position,
+                            padding)?;
                     }
                 }
 
@@ -337,13 +343,11 @@ impl<'ast, 'decls> ResolveIterator<'ast, 'decls>
                 let cur_bank_data = &mut self.bank_data[self.bank_ref.0];
 
                 // Advance the current bank's position
-                cur_bank_data.cur_position += {
-                    match instr.encoding.size
-                    {
-                        Some(size) => size,
-                        None => 0,
-                    }
-                };
+                advance_position(
+                    report,
+                    ast_instr.span,
+                    &mut cur_bank_data.cur_position,
+                    instr.encoding.size.unwrap_or(0))?;
             }
 
             asm::AstAny::DirectiveData(ast_data) =>
@@ -354,13 +358,11 @@ impl<'ast, 'decls> ResolveIterator<'ast, 'decls>
                 let cur_bank_data = &mut self.bank_data[self.bank_ref.0];
 
                 // Advance the current bank's position
-                cur_bank_data.cur_position += {
-                    match data_elem.encoding.size
-                    {
-                        Some(size) => size,
-                        None => 0,
-                    }
-                };
+                advance_position(
+                    report,
+                    ast_data.header_span,
+                    &mut cur_bank_data.cur_position,
+                    data_elem.encoding.size.unwrap_or(0))?;
             }
 
             asm::AstAny::DirectiveRes(ast_res) =>
@@ -371,7 +373,11 @@ impl<'ast, 'decls> ResolveIterator<'ast, 'decls>
                 let cur_bank_data = &mut self.bank_data[self.bank_ref.0];
 
                 // Advance the current bank's position
-                cur_bank_data.cur_position += res.reserve_size;
+                advance_position(
+                    report,
+                    ast_res.header_span,
+                    &mut cur_bank_data.cur_position,
+                    res.reserve_size)?;
             }
 
             asm::AstAny::DirectiveAlign(ast_align) =>
@@ -393,11 +399,17 @@ impl<'ast, 'decls> ResolveIterator<'ast, 'decls>
                         span,
                         &util::BigInt::from(cur_bank_data.cur_position))?;
 
-                cur_bank_data.cur_position += bits_until_alignment(
+                let padding = bits_until_alignment(
                     report,
                     span,
                     cur_address_in_bits,
                     align.align_size)?;
+
+                advance_position(
+                    report,
+                    span,
+                    &mut cur_bank_data.cur_position,
+                    padding)?;
             }
 
             asm::AstAny::DirectiveAddr(ast_addr) =>
@@ -411,13 +423,24 @@ impl<'ast, 'decls> ResolveIterator<'ast, 'decls>
                 let new_position = {
                     if addr.address >= bank.addr_start
                     {
-                        &addr.address.checked_sub(
+                        match addr.address.checked_sub(
                                 report,
                                 ast_addr.header_span,
                                 &bank.addr_start)?
                             .maybe_into::<usize>()
                             .unwrap_or(0)
-                            * bank.addr_unit
+                            .checked_mul(bank.addr_unit)
+                        {
+                            Some(position) => position,
+                            None =>
+                            {
+                                report.error_span(
+                                    "value is out of supported range",
+                                    ast_addr.header_span);
+
+                                return Err(());
+                            }
+                        }
                     }
                     else
                     {
@@ -432,6 +455,34 @@ impl<'ast, 'decls> ResolveIterator<'ast, 'decls>
         }
 
         Ok(())
+    }
+}
+
+
+/// Advances a bank position, reporting an error
+/// instead of wrapping around the machine word.
+fn advance_position(
+    report: &mut diagn::Report,
+    span: diagn::Span,
+    position: &mut usize,
+    amount: usize)
+    -> Result<(), ()>
+{
+    match position.checked_add(amount)
+    {
+        Some(new_position) =>
+        {
+            *position = new_position;
+            Ok(())
+        }
+        None =>
+        {
+            report.error_span(
+                "value is out of supported range",
+                span);
+
+            Err(())
+        }
     }
 }
 
